@@ -42,6 +42,10 @@ def render(us, style, rng, record=None):
         if kind == "pragma":
             if state["col"] != 1:
                 put("\n")
+            if record is not None:
+                record.append(("pragma", state["line"], state["col"] + 1, state["file"]))
+                if val:
+                    record.append((val, state["line"], state["col"] + 8, state["file"]))
             put("#pragma" + (" " + val if val else "") + "\n")
             continue
         if style == "markers" and rng.random() < 0.25:
